@@ -153,6 +153,16 @@ PROPS = {
                 trusted_base=TB + ["spec/btc_lib.py"],
                 explanation="the repository's own glue around python-bitcoinlib: zeros(n-1)+[last], IndexError on an empty script, -102 before any exchange",
                 extras=[_c14_lemmas]),
+    "C19": dict(level="other", assumptions=COMMON + ["A-HEX: ledgerblue IntelHexParser(path).getAreas() = the image's data areas in address order, whatever the record sizes (assumed; "
+                                                      "this IS the first half of the property's first sentence)",
+                                                      "A-HASH: hashlib.sha256 as an uninterpreted function with the incremental-update law",
+                                                      "A-CLI: argparse / sys.exit / str.split / str.strip / ecdsa (fresh key per generate(), sign_digest output verifies under the key) as assumed contracts",
+                                                      "scope: compute_app_hash and signonetime.main; signapp.py ('hash' / 'message' operations embed compute_app_hash(...).hex()) is NOT under contract; "
+                                                      "'repeated runs' (freshness across runs) is a property of ecdsa.SigningKey.generate and of the OS random source: assumed"],
+                trusted_base=["spec/hash_ext.py", "spec/cli_ext.py", "spec/fs.py"],
+                explanation="hash = SHA-256 of the concatenation of the parser's areas in order (loop invariant over a recursive spec function); one key per run, "
+                            "public-key file and one signature file per image with fully specified contents, every signature over the image's hash and verifying under the key; "
+                            "no term written to a file or to stdout mentions the secret (syntactic taint)"),
     "C13": dict(level="proof", assumptions=COMMON + [A_FW], trusted_base=TB + ["spec/firmware.py"],
                 explanation="reply fields are equated with the answers recorded in the ghost log, selectors from the firmware headers"),
 }
